@@ -209,7 +209,16 @@ def check_record(args):
     try:
         argv, info = concretise(cmd, rnd, chain=rec.get('chain'))
         out['argv'], out['info'] = argv, info
-        m1, msg = run_main(argv)
+        try:
+            m1, msg = run_main(argv)
+        except AssertionError:
+            import traceback
+            if 'taper.py' not in traceback.format_exc():
+                raise
+            # the ORIGINAL command line is one the program cannot build (an assertion of the taper
+            # algorithm: recorded under C20); there is no model whose description could be compared
+            out['skipped'] = 'original-taper-assertion'
+            return out
         if not isinstance(m1, Mininec):
             out['mism'].append(dict(what='original-rejected', msg=msg))     # harness / model problem
             return out
